@@ -7,6 +7,11 @@
 (*   AddCall(m, attrs, v) / AddRet(m)     measurement m (unique id)        *)
 (*   ColCall(c, r) / ColRet(c, r, pts)    collection c by reader r and the *)
 (*                                        points it was handed             *)
+(*   DownCall(r) / DownRet(r)             MetricReader::Shutdown on reader *)
+(*                                        r alone, racing everything else  *)
+(* From DownCall(r) on nothing is said about what r is handed; every other *)
+(* reader still has to see every measurement exactly once - also those     *)
+(* that r's collections took out of the live table before r left.          *)
 (* For a collection c of reader r, the measurements it may account are    *)
 (* those not yet accounted to r whose Add was CALLED before ColRet(c); TLC  *)
 (* picks the subset (the linearisation point of a racing Add is not        *)
@@ -24,38 +29,38 @@ EXTENDS AttrSetKey, IOUtils
 
 TraceLog == ndJsonDeserialize(IOEnv.TRACE)
 
-VARIABLES l, temps, meas, incl, before, nexec
+VARIABLES l, temps, meas, incl, before, down, nexec
 
-vars == <<l, temps, meas, incl, before, nexec>>
+vars == <<l, temps, meas, incl, before, down, nexec>>
 
 Ev == TraceLog[l]
 Is(e) == l <= Len(TraceLog) /\ Ev.e = e /\ l' = l + 1
 Empty == [x \in {} |-> 0]
 
 Init == /\ TLCSet(1, 0)
-        /\ l = 1 /\ nexec = 0 /\ temps = <<>> /\ meas = Empty /\ incl = <<>> /\ before = Empty
+        /\ l = 1 /\ nexec = 0 /\ temps = <<>> /\ meas = Empty /\ incl = <<>> /\ before = Empty /\ down = {}
 
 TCfg == /\ Is("Cfg")
         /\ temps' = Ev.temps
-        /\ meas' = Empty /\ before' = Empty
+        /\ meas' = Empty /\ before' = Empty /\ down' = {}
         /\ incl' = [r \in 1..Len(Ev.temps) |-> {}]
         /\ nexec' = nexec + 1
 
 TAddCall == /\ Is("AddCall")
             /\ Ev.m \notin DOMAIN meas
             /\ meas' = meas @@ (Ev.m :> [a |-> Canon(Ev.attrs, {0}), v |-> Ev.v, ret |-> FALSE])
-            /\ UNCHANGED <<temps, incl, before, nexec>>
+            /\ UNCHANGED <<temps, incl, before, down, nexec>>
 
 TAddRet == /\ Is("AddRet")
            /\ Ev.m \in DOMAIN meas /\ ~meas[Ev.m].ret
            /\ meas' = [meas EXCEPT ![Ev.m].ret = TRUE]
-           /\ UNCHANGED <<temps, incl, before, nexec>>
+           /\ UNCHANGED <<temps, incl, before, down, nexec>>
 
 TColCall == /\ Is("ColCall")
             /\ Ev.c \notin DOMAIN before
             /\ Ev.final => \A m \in DOMAIN meas : meas[m].ret       \* harness discipline
             /\ before' = before @@ (Ev.c :> Ev.final)
-            /\ UNCHANGED <<temps, meas, incl, nexec>>
+            /\ UNCHANGED <<temps, meas, incl, down, nexec>>
 
 ASet(a) == {<<a[i][1], a[i][2]>> : i \in 1..Len(a)}
 RECURSIVE SumOf(_, _)
@@ -72,18 +77,27 @@ TColRet == /\ Is("ColRet")
            /\ Ev.c \in DOMAIN before
            /\ LET r == Ev.r
                   opt == DOMAIN meas \ incl[r]
-              IN \E S \in (IF before[Ev.c] THEN {opt} ELSE SUBSET opt) :
+              IN IF r \in down THEN UNCHANGED incl       \* a reader that was shut down: not examined
+                 ELSE \E S \in (IF before[Ev.c] THEN {opt} ELSE SUBSET opt) :
                     /\ Matches(Ev.pts, IF temps[r] = "delta" THEN S ELSE incl[r] \cup S)
                     /\ incl' = [incl EXCEPT ![r] = @ \cup S]
-           /\ UNCHANGED <<temps, meas, before, nexec>>
+           /\ UNCHANGED <<temps, meas, before, down, nexec>>
 
-\* all threads joined and every reader collected once more: everything was seen by everybody
+TDownCall == /\ Is("DownCall")
+             /\ Ev.r \in 1..Len(temps) /\ Ev.r \notin down
+             /\ down' = down \cup {Ev.r}
+             /\ UNCHANGED <<temps, meas, incl, before, nexec>>
+TDownRet == /\ Is("DownRet")
+            /\ Ev.r \in down
+            /\ UNCHANGED <<temps, meas, incl, before, down, nexec>>
+
+\* all threads joined and every reader collected once more: everything was seen by everybody (who stayed)
 TEnd == /\ Is("End")
         /\ \A m \in DOMAIN meas : meas[m].ret
-        /\ \A r \in 1..Len(temps) : incl[r] = DOMAIN meas
-        /\ UNCHANGED <<temps, meas, incl, before, nexec>>
+        /\ \A r \in (1..Len(temps)) \ down : incl[r] = DOMAIN meas
+        /\ UNCHANGED <<temps, meas, incl, before, down, nexec>>
 
-Next == TCfg \/ TAddCall \/ TAddRet \/ TColCall \/ TColRet \/ TEnd
+Next == TCfg \/ TAddCall \/ TAddRet \/ TColCall \/ TColRet \/ TDownCall \/ TDownRet \/ TEnd
 
 Spec == Init /\ [][Next]_vars
 
